@@ -119,6 +119,23 @@ def outfile_rule(repo, res, rule="OUTFILE"):
                 ok = ".truncate(true)" in txt and ".append(true)" not in txt
                 res.check(ok, rule, f"{rule}:{fn.qname}:OpenOptions", f"{txt[:90]}" + ("" if ok else ": opened for writing without truncation -- a shorter script leaves the tail of the previous file behind"), f"{fn.file}:{c['l']}")
     res.check(n >= 1, rule, f"{rule}:main:found", f"{n} file-opening sites for output in main.rs", "src/main.rs")
+    # ... and what is written does not depend on what was there: main.rs never inspects an existing file (metadata, existence, length,
+    # content) -- the only file it reads is the usage file, inside the opener that returns a boxed `dyn Read`
+    INSPECT = {"metadata", "symlink_metadata", "exists", "try_exists", "is_file", "is_dir", "read_dir", "read_link", "canonicalize", "len", "modified"}
+    probes = []
+    for fn in repo.fns_in("main"):
+        is_reader = "dynRead" in "".join((fn.node.get("ret") or "").split())
+        for c in A.walk(fn.body):
+            name = None
+            if c["k"] == "Call" and c["func"]["k"] == "Path":
+                segs = c["func"]["path"].split("::")
+                if len(segs) >= 2 and segs[-2] in ("fs", "File", "Path", "OpenOptions") and (segs[-1] in INSPECT or segs[-1] in ("read", "read_to_string", "open")):
+                    name = "::".join(segs[-2:])
+            elif c["k"] == "MethodCall" and c["method"] in ("metadata", "symlink_metadata", "exists", "try_exists", "is_file"):
+                name = "." + c["method"]
+            if name and not (is_reader and name in ("File::open",)):
+                probes.append(f"{fn.qname}:{name}@{c['l']}")
+    res.check(not probes, rule, f"{rule}:main:no-inspection-of-existing-files", "main.rs opens its destinations for writing and reads only the usage file: nothing written depends on a file's previous state" if not probes else f"an existing file's state is inspected: {probes[:4]} -- the bytes left at the destination then depend on what was there before", "src/main.rs")
 
 
 def run(repo, res, tier):
